@@ -157,7 +157,37 @@ func shapeOf(loadedKey string) string {
 	return ""
 }
 
-func usesShape(p Point) bool { return shapeOf(p.LoadedKey) != "" || p.LoadedCert == "zero" }
+func usesShape(p Point) bool {
+	return shapeOf(p.LoadedKey) != "" || p.LoadedKey == "ec384" || p.LoadedCert == "zero" || isAlgCert(p.LoadedCert)
+}
+
+// isAlgCert: LoadedCertificate values of the sub-workload that are well-formed certificates of a key algorithm, curve or
+// key pair outside the lattice: an Ed25519 certificate (certifies the lattice's Ed25519 key), an ECDSA certificate on
+// P-384 (certifies the key "ec384"), a second RSA certificate whose private key nobody holds.
+func isAlgCert(name string) bool { return name == "ed25519" || name == "ec384" || name == "rsa2" }
+
+// expectAlgCert fills the identity expectation for such a certificate. Written from the statement: the key that belongs
+// to the certificate makes the pair usable (the identity is owed; for the Ed25519 pair - a key type the doc comment does
+// not promise to accept - an error is accepted too, but never a configuration without the identity); ANY other key,
+// whatever its algorithm or form, does not belong to the certificate: unusable material, an error is owed.
+func expectAlgCert(p Point, e *expectation) {
+	feature := "(" + p.LoadedCert + "-certificate)"
+	sh := shapeOf(p.LoadedKey)
+	switch {
+	case p.LoadedKey == "":
+		e.idErr, e.idReason = true, "loaded-key-missing"
+	case sh == "typed-nil" || sh == "zero-value" || sh == "public-half-only":
+		expectShape(p, e)
+	case p.LoadedCert == "ed25519" && p.LoadedKey == "ed25519":
+		e.idEither, e.idReason, e.idWant = true, "loaded-key-ed25519-of-the-pair", "ed25519"
+	case p.LoadedCert == "ec384" && p.LoadedKey == "ec384":
+		e.idWant = "ec384"
+	case sh != "":
+		e.idErr, e.idReason = true, "loaded-key-mismatch("+sh+")"+feature
+	default:
+		e.idErr, e.idReason = true, "loaded-key-mismatch"+feature
+	}
+}
 
 // shapedKey builds the LoadedKey value for a name of the sub-workload.
 func shapedKey(name string, mat *material) (crypto.PrivateKey, bool) {
@@ -182,6 +212,8 @@ func shapedKey(name string, mat *material) (crypto.PrivateKey, bool) {
 		return opaqueSigner{mat.rsaKey}, true
 	case "ec-signer":
 		return opaqueSigner{mat.ecKey}, true
+	case "ec384":
+		return mat.ec384Key, true // a usable ECDSA key on another curve (P-384); belongs to the certificate "ec384"
 	case "ec-generic-curve":
 		// the right key, on the generic implementation of its curve (no named-curve identity: the SEC 1 marshaller refuses it)
 		k := *mat.ecKey
@@ -237,6 +269,20 @@ func shapePoints() []Point {
 	}
 	for _, lk := range []string{"", "ec", "rsa", "ed25519", "ec-signer"} {
 		out = append(out, Point{LoadedCert: "zero", LoadedKey: lk})
+	}
+	// certificates of further key algorithms / curves / pairs x the loaded keys of the lattice, the P-384 key and key shapes
+	for _, lc := range []string{"ed25519", "ec384", "rsa2"} {
+		for _, lk := range []string{"", "rsa", "ec", "ec-other", "ed25519", "ec384", "rsa-signer", "ec-signer", "rsa-value", "ec-value", "rsa-nil", "ec-zero"} {
+			for _, ca := range []string{"", "ca1"} {
+				out = append(out, Point{LoadedCert: lc, LoadedKey: lk, LoadedCA: ca})
+			}
+		}
+	}
+	// and the lattice's certificates with the key on the other curve
+	for _, lc := range []string{"rsa", "ec"} {
+		for _, ca := range []string{"", "ca1"} {
+			out = append(out, Point{LoadedCert: lc, LoadedKey: "ec384", LoadedCA: ca})
+		}
 	}
 	// the documented override: with a certificate FILE the loaded slots are ignored, whatever they hold
 	out = append(out, Point{CertFile: "ec", KeyFile: "ec", LoadedCert: "zero", LoadedKey: "ec-zero"},
